@@ -1,4 +1,6 @@
 import CppUModel.Proofs.Registry
+import CppUModel.Proofs.RegistryGen
+import CppUModel.Proofs.OrderedTest
 /-!
 # C02 — every selected test runs exactly once per repetition; selection follows filters
 
@@ -224,6 +226,100 @@ theorem array_of_list (nx : Next) (h : Option Nat) (l : List Nat) (hl : Linked n
     (fuel : Nat) (hf : l.length ≤ fuel + 1) : (mkArray nx fuel h).toList = l :=
   mkArray_of_linked hl fuel hf
 
+
+/-! ## the REGENERATED pointer-array methods (translated from the clang AST on every run)
+
+`Gen/PointerArray.lean` holds `UtestShellPointerArray::{swap, shuffle, reverse, relinkTestsInOrder}`
+as the current source has them.  They are proved EQUAL to the hand-written array model, so
+`shuffle_perm`, `shuffle_in_bounds`, `reverse_eq_reverse`, `relink_roundtrip`, `wf_history`,
+`shuffle_run`, `reverse_run`, `runner_every_repetition` speak about the loops of the source at
+check time. -/
+
+open PA in
+/-- `swap(i, j)` of the source, inside the array, exchanges exactly the two elements -/
+theorem gen_swap_eq (s : St) (i j : Nat) (hi : i < s.arr.size) (hj : j < s.arr.size) :
+    Gen.PointerArray.swap s i j = .go { s with arr := swap s.arr i j } := gen_swap s i j hi hj
+
+open PA in
+/-- `relinkTestsInOrder()` of the source is the model's relink loop (and touches nothing else) -/
+theorem gen_relink_eq (s : St) (hc : s.count = s.arr.size) :
+    ∃ s', Gen.PointerArray.relinkTestsInOrder s = .go s' ∧ s'.next = relink s.arr s.next ∧
+      s'.arr = s.arr ∧ s'.count = s.count ∧ s'.rands = s.rands ∧ s'.srands = s.srands :=
+  gen_relink s hc
+
+open PA in
+/-- `reverse()` of the source: never runs out of fuel, leaves the exact reverse in the array and
+    the relinked `next_` fields; `PlatformSpecificRand/Srand` are not touched -/
+theorem gen_reverse_eq (s : St) (hc : s.count = s.arr.size) :
+    ∃ s', (Gen.PointerArray.reverse s).state? = some s' ∧ s'.arr.toList = s.arr.toList.reverse ∧
+      s'.next = (if s.arr.size = 0 then s.next else relink (reverseArr s.arr) s.next) ∧
+      s'.rands = s.rands ∧ s'.srands = s.srands := by
+  obtain ⟨s', h1, h2, h3, h4, h5⟩ := gen_reverse s hc
+  exact ⟨s', h1, by rw [h2, reverseArr_toList], h3, h4, h5⟩
+
+open PA in
+/-- `shuffle(seed)` of the source, for EVERY random stream long enough (`count_ - 1` numbers):
+    never runs out of fuel, seeds exactly once with `(unsigned int) seed` (not at all for an empty
+    array), consumes exactly `count_ - 1` numbers, leaves a PERMUTATION of the array (the one
+    `shuffleArr` computes) and its relinked `next_` fields. -/
+theorem gen_shuffle_eq (s : St) (seed : Nat) (hc : s.count = s.arr.size)
+    (hr : randsNeeded s.arr.size ≤ s.rands.length) :
+    ∃ s', (Gen.PointerArray.shuffle s seed).state? = some s' ∧ s'.arr = shuffleArr s.rands s.arr ∧
+      s'.arr.toList.Perm s.arr.toList ∧
+      s'.next = (if s.arr.size = 0 then s.next else relink s'.arr s.next) ∧
+      s'.rands = (if s.arr.size = 0 then s.rands else s.rands.drop (randsNeeded s.arr.size)) ∧
+      s'.srands = (if s.arr.size = 0 then s.srands else s.srands ++ [seed % 4294967296]) := by
+  obtain ⟨s', h1, h2, h3, h4, h5⟩ := gen_shuffle s seed hc hr
+  exact ⟨s', h1, h2, by rw [h2]; exact shuffle_perm _ _, by rw [h2]; exact h3, h4, h5⟩
+
+/-- `TestRegistry::reverseTests` executed through the regenerated `reverse` IS the model's
+    `Reg.reverseTests` (no hypothesis: the constructor makes `count_` the array's size). -/
+theorem gen_reverseTests_eq (r : Reg) :
+    ∃ g, r.reverseTestsGen = some g ∧ g.reg = r.reverseTests ∧ g.srands = [] ∧ g.rest = [] := by
+  obtain ⟨s', h1, h2, h3, h4, h5⟩ := gen_reverse (r.pointerArray []) rfl
+  refine ⟨{ reg := r.afterArray s', srands := s'.srands, rest := s'.rands }, ?_, ?_, h5, h4⟩
+  · simp only [Reg.reverseTestsGen, h1]
+  · simp only [Reg.afterArray, Reg.reverseTests, h2, h3, Reg.pointerArray]
+    rfl
+
+/-- `TestRegistry::shuffleTests(seed)` executed through the regenerated `shuffle` IS the model's
+    `Reg.shuffleTests` on the numbers drawn; it draws `n - 1` numbers for `n` registered tests. -/
+theorem gen_shuffleTests_eq (r : Reg) (seed : Nat) (rs : List Nat)
+    (hr : randsNeeded (mkArray r.next r.objs.size r.head).size ≤ rs.length) :
+    ∃ g, r.shuffleTestsGen seed rs = some g ∧ g.reg = r.shuffleTests rs ∧
+      g.srands = (if (mkArray r.next r.objs.size r.head).size = 0 then [] else [seed % 4294967296]) ∧
+      g.rest = (if (mkArray r.next r.objs.size r.head).size = 0 then rs
+                else rs.drop (randsNeeded (mkArray r.next r.objs.size r.head).size)) := by
+  obtain ⟨s', h1, h2, h3, h4, h5⟩ := gen_shuffle (r.pointerArray rs) seed rfl hr
+  refine ⟨{ reg := r.afterArray s', srands := s'.srands, rest := s'.rands }, ?_, ?_, ?_, h4⟩
+  · simp only [Reg.shuffleTestsGen, h1]
+  · simp only [Reg.afterArray, Reg.shuffleTests, h2, h3, Reg.pointerArray]
+    rfl
+  · rw [h5]; simp [Reg.pointerArray]
+
+/-- End to end on the regenerated code: after `shuffleTests(seed)` as the source has it, for any
+    seed and any random stream, the registry is well formed and its list is a permutation of the
+    list before — no test lost, none duplicated. -/
+theorem gen_shuffleTests_perm {r : Reg} (h : r.WF) (seed : Nat) (rs : List Nat)
+    (hr : randsNeeded r.order.length ≤ rs.length) :
+    ∃ g, r.shuffleTestsGen seed rs = some g ∧ g.reg.WF ∧ g.reg.order.Perm r.order ∧
+      g.rest.length + randsNeeded r.order.length = rs.length := by
+  have hsz : (mkArray r.next r.objs.size r.head).size = r.order.length := by
+    rw [← Array.length_toList, h.mkArray_toList]
+  obtain ⟨g, h1, h2, _, h4⟩ := gen_shuffleTests_eq r seed rs (by rw [hsz]; exact hr)
+  refine ⟨g, h1, by rw [h2]; exact (wf_shuffleTests h rs).1, by rw [h2]; exact (wf_shuffleTests h rs).2, ?_⟩
+  rw [h4, hsz]
+  split
+  · rename_i h0; simp [h0, randsNeeded]
+  · simp only [List.length_drop]; omega
+
+/-- ... and after `reverseTests()` as the source has it the list is the exact reverse. -/
+theorem gen_reverseTests_order {r : Reg} (h : r.WF) :
+    ∃ g, r.reverseTestsGen = some g ∧ g.reg.WF ∧ g.reg.order = r.order.reverse := by
+  obtain ⟨g, h1, h2, _, _⟩ := gen_reverseTests_eq r
+  exact ⟨g, h1, by rw [h2]; exact (wf_reverseTests h).1, by rw [h2]; exact (wf_reverseTests h).2⟩
+
+
 /-! ## the registry: no test is ever lost or duplicated -/
 
 inductive RegOp
@@ -401,6 +497,275 @@ theorem shuffle_run {r : Reg} (h : r.WF) (rs : List Nat) :
     simp only [hx, hy] at c1 c2 p1 p2
     simp only [Counters.mk.injEq]
     omega
+
+/-! ## TEST_ORDERED (src/CppUTestExt/OrderedTest.cpp): ordered tests are registered like any other
+
+The installer links an ordered shell into the registry's `next_` list AND into the level-sorted
+`_nextOrderedTest` list.  For every sequence of registrations (plain, ignored and ordered tests
+in any order, any levels) the registry's list holds every shell exactly once, the plain tests
+stand in front (newest first, as without ordered tests) and the ordered tests behind them in the
+order of their levels, equal levels in registration order.  Every theorem above that needs
+`Reg.WF` / `Reg.Complete` therefore applies to registries with ordered tests. -/
+
+/-- one static registration -/
+inductive InstOp
+  | test (group name : Bytes) (ignored : Bool)          -- TEST / IGNORE_TEST
+  | ordered (lvl : Int) (group name : Bytes)            -- TEST_ORDERED(group, name, lvl)
+
+def OReg.applyInst (o : OReg) : InstOp → OReg
+  | .test g n ig => o.addTest g n ig
+  | .ordered lvl g n => o.install lvl g n [] 0
+
+/-- ids (registration indices, from `k`) of the plain / ignored registrations -/
+def plainOf : List InstOp → Nat → List Nat
+  | [], _ => []
+  | .test _ _ _ :: ops, k => k :: plainOf ops (k + 1)
+  | .ordered _ _ _ :: ops, k => plainOf ops (k + 1)
+
+/-- ids and levels of the ordered registrations -/
+def orderedOf : List InstOp → Nat → List (Nat × Int)
+  | [], _ => []
+  | .test _ _ _ :: ops, k => orderedOf ops (k + 1)
+  | .ordered lvl _ _ :: ops, k => (k, lvl) :: orderedOf ops (k + 1)
+
+/-- sorted by level, equal levels by registration index -/
+def LevelSorted (level : Nat → Int) (chain : List Nat) : Prop :=
+  chain.Pairwise (fun a b => level a < level b ∨ (level a = level b ∧ a < b))
+
+theorem insLvl_levelSorted (level : Nat → Int) (lvl : Int) (i : Nat) : ∀ chain : List Nat,
+    LevelSorted level chain → (∀ c ∈ chain, c < i) →
+    LevelSorted (fun k => if k = i then lvl else level k) (insLvl level lvl i chain)
+  | [], _, _ => by simp [insLvl, LevelSorted]
+  | c :: chain, hs, hlt => by
+    have hs' := List.pairwise_cons.mp hs
+    have hci : c ≠ i := by have := hlt c (by simp); omega
+    have hlt' : ∀ x ∈ chain, x < i := fun x hx => hlt x (by simp [hx])
+    have hne : ∀ x ∈ chain, x ≠ i := fun x hx => by have := hlt' x hx; omega
+    by_cases hc : level c ≤ lvl
+    · have e : insLvl level lvl i (c :: chain) = c :: insLvl level lvl i chain := by
+        simp [insLvl, List.takeWhile, List.dropWhile, hc]
+      rw [e]
+      apply List.pairwise_cons.mpr
+      refine ⟨?_, insLvl_levelSorted level lvl i chain hs'.2 hlt'⟩
+      intro b hb
+      have hb' := (insLvl_perm level lvl i chain).subset hb
+      simp only [hci, if_false]
+      simp only [List.mem_cons] at hb'
+      rcases hb' with rfl | hb'
+      · have := hlt c (by simp)
+        simp only [if_true]
+        omega
+      · simp only [hne b hb', if_false]
+        exact hs'.1 b hb'
+    · have e : insLvl level lvl i (c :: chain) = i :: c :: chain := by
+        simp [insLvl, List.takeWhile, List.dropWhile, hc]
+      rw [e]
+      apply List.pairwise_cons.mpr
+      constructor
+      · intro b hb
+        have hbi : b ≠ i := by
+          simp only [List.mem_cons] at hb
+          rcases hb with rfl | hb
+          · exact hci
+          · exact hne b hb
+        simp only [if_true, hbi, if_false]
+        simp only [List.mem_cons] at hb
+        rcases hb with rfl | hb
+        · left; omega
+        · rcases hs'.1 b hb with h1 | h1
+          · left; omega
+          · left; omega
+      · apply List.Pairwise.imp_of_mem _ hs
+        intro a b ha hb hab
+        have hai : a ≠ i := by have := hlt a ha; omega
+        have hbi : b ≠ i := by have := hlt b hb; omega
+        simpa [hai, hbi] using hab
+
+/-- the state reached by registrations: invariant of OrderedTest.cpp plus what is where -/
+structure InstState (o : OReg) (pre chain : List Nat) : Prop where
+  inv     : OInv o pre chain
+  lex     : LevelSorted o.level chain
+  bound   : ∀ c ∈ pre ++ chain, c < o.reg.objs.size
+  all     : (pre ++ chain).Perm (List.range o.reg.objs.size)
+
+theorem instState_step {o : OReg} {pre chain : List Nat} (h : InstState o pre chain) (op : InstOp) :
+    ∃ pre' chain', InstState (o.applyInst op) pre' chain' ∧
+      (o.applyInst op).reg.objs.size = o.reg.objs.size + 1 ∧
+      (match op with
+       | .test _ _ _ => pre' = o.reg.objs.size :: pre ∧ chain' = chain ∧ (o.applyInst op).level = o.level
+       | .ordered lvl _ _ => pre' = pre ∧ chain' = insLvl o.level lvl o.reg.objs.size chain ∧
+           (o.applyInst op).level o.reg.objs.size = lvl ∧
+           ∀ c, c ≠ o.reg.objs.size → (o.applyInst op).level c = o.level c) := by
+  cases op with
+  | test g n ig =>
+    refine ⟨o.reg.objs.size :: pre, chain, ?_, by simp [OReg.applyInst, OReg.addTest, Reg.addTest], rfl, rfl, rfl⟩
+    have hsz : (o.addTest g n ig).reg.objs.size = o.reg.objs.size + 1 := by simp [OReg.addTest, Reg.addTest]
+    refine { inv := oinv_addTest h.inv g n ig [] 0, lex := h.lex, bound := ?_, all := ?_ }
+    · intro c hc
+      show c < (o.addTest g n ig).reg.objs.size
+      rw [hsz]
+      simp only [List.cons_append, List.mem_cons] at hc
+      rcases hc with rfl | hc
+      · omega
+      · have := h.bound c hc; omega
+    · show (o.reg.objs.size :: pre ++ chain).Perm (List.range (o.addTest g n ig).reg.objs.size)
+      rw [hsz, List.range_succ]
+      exact (List.Perm.cons _ h.all).trans (List.perm_append_singleton _ _).symm
+  | ordered lvl g n =>
+    obtain ⟨hinv, hsz, hlev⟩ := oinv_install h.inv lvl g n [] 0
+    have hlt : ∀ c ∈ chain, c < o.reg.objs.size := fun c hc => h.bound c (by simp [hc])
+    refine ⟨pre, insLvl o.level lvl o.reg.objs.size chain, ?_, hsz, rfl, rfl, by simp [OReg.applyInst, hlev], ?_⟩
+    · refine { inv := hinv, lex := ?_, bound := ?_, all := ?_ }
+      · show LevelSorted (o.install lvl g n [] 0).level _
+        rw [hlev]
+        exact insLvl_levelSorted o.level lvl o.reg.objs.size chain h.lex hlt
+      · intro c hc
+        show c < (o.install lvl g n [] 0).reg.objs.size
+        rw [hsz]
+        simp only [List.mem_append] at hc
+        rcases hc with hc | hc
+        · have := h.bound c (by simp [hc]); omega
+        · have := (insLvl_perm o.level lvl o.reg.objs.size chain).subset hc
+          simp only [List.mem_cons] at this
+          rcases this with rfl | hc'
+          · omega
+          · have := hlt c hc'; omega
+      · show (pre ++ insLvl o.level lvl o.reg.objs.size chain).Perm (List.range (o.install lvl g n [] 0).reg.objs.size)
+        rw [hsz, List.range_succ]
+        have p1 : (pre ++ insLvl o.level lvl o.reg.objs.size chain).Perm (pre ++ (o.reg.objs.size :: chain)) :=
+          List.Perm.append_left _ (insLvl_perm _ _ _ _)
+        have p2 : (pre ++ (o.reg.objs.size :: chain)).Perm (o.reg.objs.size :: (pre ++ chain)) := List.perm_middle
+        exact (p1.trans p2).trans ((List.Perm.cons _ h.all).trans (List.perm_append_singleton _ _).symm)
+    · intro c hc
+      simp [OReg.applyInst, hlev, hc]
+
+theorem instState_history (ops : List InstOp) : ∀ (o : OReg) (pre chain : List Nat), InstState o pre chain →
+    ∃ pre' chain', InstState (ops.foldl OReg.applyInst o) pre' chain' ∧
+      (ops.foldl OReg.applyInst o).reg.objs.size = o.reg.objs.size + ops.length ∧
+      pre' = (plainOf ops o.reg.objs.size).reverse ++ pre ∧
+      chain'.Perm ((orderedOf ops o.reg.objs.size).map (·.1) ++ chain) ∧
+      (∀ p ∈ orderedOf ops o.reg.objs.size, (ops.foldl OReg.applyInst o).level p.1 = p.2) ∧
+      (∀ c, c < o.reg.objs.size → (ops.foldl OReg.applyInst o).level c = o.level c) := by
+  induction ops with
+  | nil => intro o pre chain h; exact ⟨pre, chain, h, rfl, by simp [plainOf], by simp [orderedOf], by simp [orderedOf], fun _ _ => rfl⟩
+  | cons op ops ih =>
+    intro o pre chain h
+    obtain ⟨pre1, chain1, h1, hsz1, hop⟩ := instState_step h op
+    obtain ⟨pre', chain', h2, hsz2, hp, hc, hl, hk⟩ := ih _ pre1 chain1 h1
+    refine ⟨pre', chain', h2, by simp only [List.foldl_cons, List.length_cons]; rw [hsz2, hsz1]; omega, ?_, ?_, ?_, ?_⟩
+    · cases op with
+      | test g n ig =>
+        obtain ⟨e1, _, _⟩ := hop
+        rw [hp, hsz1, e1]; simp [plainOf]
+      | ordered lvl g n =>
+        obtain ⟨e1, _, _⟩ := hop
+        rw [hp, hsz1, e1]; simp [plainOf]
+    · cases op with
+      | test g n ig =>
+        obtain ⟨_, e2, _⟩ := hop
+        rw [hsz1, e2] at hc; simpa [orderedOf] using hc
+      | ordered lvl g n =>
+        obtain ⟨_, e2, _⟩ := hop
+        rw [hsz1, e2] at hc
+        simp only [orderedOf, List.map_cons, List.cons_append]
+        refine hc.trans ?_
+        have := insLvl_perm o.level lvl o.reg.objs.size chain
+        exact (List.Perm.append_left _ this).trans List.perm_middle
+    · intro p hpm
+      simp only [List.foldl_cons]
+      cases op with
+      | test g n ig =>
+        simp only [orderedOf] at hpm
+        exact hl p (by rw [hsz1]; exact hpm)
+      | ordered lvl g n =>
+        obtain ⟨_, _, e3, _⟩ := hop
+        simp only [orderedOf, List.mem_cons] at hpm
+        rcases hpm with rfl | hpm
+        · rw [hk _ (by rw [hsz1]; omega)]; exact e3
+        · exact hl p (by rw [hsz1]; exact hpm)
+    · intro c hcl
+      simp only [List.foldl_cons]
+      rw [hk c (by rw [hsz1]; omega)]
+      cases op with
+      | test g n ig => obtain ⟨_, _, e3⟩ := hop; rw [e3]
+      | ordered lvl g n => obtain ⟨_, _, _, e4⟩ := hop; exact e4 c (by omega)
+
+theorem instState_empty : InstState {} [] [] :=
+  { inv := oinv_empty, lex := List.Pairwise.nil, bound := by simp,
+    all := by simp [Reg.empty] }
+
+/-- **Registrations with TEST_ORDERED.**  After ANY sequence of static registrations — plain,
+    ignored and ordered tests in any order, any levels (ties, negative, INT_MIN/INT_MAX) — the
+    registry's list is a proper NULL-terminated list that holds every registered shell exactly
+    once (`WF`, `Complete`); it reads: the plain/ignored tests, newest first, followed by the
+    ordered tests; the ordered tests are exactly the `_nextOrderedTest` chain and stand in the
+    order of their levels, equal levels in registration order. -/
+theorem ordered_history (ops : List InstOp) :
+    (ops.foldl OReg.applyInst {}).reg.WF ∧ (ops.foldl OReg.applyInst {}).reg.Complete ∧
+    (ops.foldl OReg.applyInst {}).reg.objs.size = ops.length ∧
+    ∃ chain, (ops.foldl OReg.applyInst {}).reg.order = (plainOf ops 0).reverse ++ chain ∧
+      (ops.foldl OReg.applyInst {}).chain = chain ∧
+      chain.Perm ((orderedOf ops 0).map (·.1)) ∧
+      (∀ p ∈ orderedOf ops 0, (ops.foldl OReg.applyInst {}).level p.1 = p.2) ∧
+      LevelSorted (ops.foldl OReg.applyInst {}).level chain := by
+  obtain ⟨pre', chain', h, hsz, hp, hc, hl, _⟩ := instState_history ops {} [] [] instState_empty
+  have hsz0 : ({} : OReg).reg.objs.size = 0 := rfl
+  rw [hsz0] at hsz hp hc hl
+  have hord := h.inv.order
+  refine ⟨h.inv.wf, ?_, by simpa using hsz, chain', ?_, ?_, by simpa using hc, hl, h.lex⟩
+  · unfold Reg.Complete; rw [hord]; exact h.all
+  · rw [hord, hp]; simp
+  · unfold OReg.chain
+    apply walk_of_linked h.inv.olink
+    have hsub : chain'.length ≤ (pre' ++ chain').length := by simp
+    have := h.inv.wf.order_length_le
+    rw [hord] at this
+    omega
+
+/-- ... hence in a repetition every registration — ordered or not — is run, or counted as
+    ignored, or counted as filtered out: the three counters sum to the number of registrations,
+    whatever filters are set afterwards. -/
+theorem ordered_every_registration_counted (ops : List InstOp) (gf nf : List Filter) (ri : Bool) :
+    ({ (ops.foldl OReg.applyInst {}).reg with groupFilters := gf, nameFilters := nf, runIgnored := ri } : Reg).run.1.runCount +
+    ({ (ops.foldl OReg.applyInst {}).reg with groupFilters := gf, nameFilters := nf, runIgnored := ri } : Reg).run.1.ignoredCount +
+    ({ (ops.foldl OReg.applyInst {}).reg with groupFilters := gf, nameFilters := nf, runIgnored := ri } : Reg).run.1.filteredOutCount
+      = ops.length := by
+  obtain ⟨hw, hc, hsz, _⟩ := ordered_history ops
+  have hw' : ({ (ops.foldl OReg.applyInst {}).reg with groupFilters := gf, nameFilters := nf, runIgnored := ri } : Reg).WF :=
+    ⟨hw.linked, hw.nodup, hw.bound, hw.ids⟩
+  have := run_counts_all_registered hw' hc
+  rw [this]
+  exact hsz
+
+/-- `reg->getTestWithNext(head)` in `addOrderedTestToHead`: the id-level loop of the installer's
+    model is the registry query `getTestWithNext` proved in `getTestWithNext_spec` -/
+theorem ordered_uses_getTestWithNext {r : Reg} (h : r.WF) (target : Option Nat) :
+    prevId target r.order = getTestWithNext target r.tests := prevId_order h target
+
+/-- the single installer step, on any state the registrations can reach: only an insertion -/
+theorem ordered_install_inserts {o : OReg} {pre chain : List Nat} (h : OInv o pre chain) (lvl : Int)
+    (g n f : Bytes) (line : Nat) :
+    (o.install lvl g n f line).reg.WF ∧
+    (o.install lvl g n f line).reg.order = pre ++ insLvl o.level lvl o.reg.objs.size chain ∧
+    ((o.install lvl g n f line).reg.order.filter (· ≠ o.reg.objs.size)) = o.reg.order := by
+  obtain ⟨hinv, _, _⟩ := oinv_install h lvl g n f line
+  refine ⟨hinv.wf, hinv.order, ?_⟩
+  rw [hinv.order, h.order]
+  have hnot : ∀ c ∈ pre ++ chain, c ≠ o.reg.objs.size := by
+    intro c hc e
+    have := h.wf.bound c (h.order ▸ hc)
+    omega
+  have hf : ∀ l : List Nat, (∀ c ∈ l, c ≠ o.reg.objs.size) → l.filter (· ≠ o.reg.objs.size) = l := by
+    intro l hl
+    apply List.filter_eq_self.mpr
+    intro c hc; simpa using hl c hc
+  have hch : ∀ c ∈ chain, c ≠ o.reg.objs.size := fun c hc => hnot c (by simp [hc])
+  have hins : (insLvl o.level lvl o.reg.objs.size chain).filter (· ≠ o.reg.objs.size) = chain := by
+    unfold insLvl
+    rw [List.filter_append, List.filter_cons_of_neg (by simp), ← List.filter_append,
+      List.takeWhile_append_dropWhile]
+    exact hf chain hch
+  rw [List.filter_append, hf pre (fun c hc => hnot c (by simp [hc])), hins]
 
 /-! ## run-ignored per shell: `shouldRun` × `willRun` -/
 
@@ -652,6 +1017,50 @@ theorem runner_return (a : RunnerArgs) (r : Reg) (rs : List Nat) (h : r.WF) (hm 
   rw [runner_none_eq a r rs hm]
   exact key.2.2.2.2
 
+/-- **Ordered tests and the command-line runner.**  Registrations (plain / ignored / ordered, any
+    order) followed by `CommandLineTestRunner::runAllTests` with any filters, -ri, -b, -s SEED
+    (any random stream), -r N: exactly N repetitions, and in each of them every selected
+    registration — ordered or not — starts exactly once and every selected, willing body runs
+    exactly once, with the same counters; afterwards the list still holds every shell once. -/
+theorem ordered_runner_every_repetition (ops : List InstOp) (a : RunnerArgs) (rs : List Nat)
+    (hm : a.listMode = .none) :
+    (runsOf (runnerRunAllTests a (ops.foldl OReg.applyInst {}).reg rs).2.1).length = a.repeatCount ∧
+    (∀ ce ∈ runsOf (runnerRunAllTests a (ops.foldl OReg.applyInst {}).reg rs).2.1,
+        RunOf (runnerStart a (ops.foldl OReg.applyInst {}).reg).keys ce ∧ (executed ce.2).Nodup ∧ (started ce.2).Nodup ∧
+        ce.1.runCount + ce.1.ignoredCount + ce.1.filteredOutCount = ops.length) ∧
+    (runnerRunAllTests a (ops.foldl OReg.applyInst {}).reg rs).1.WF ∧
+    (runnerRunAllTests a (ops.foldl OReg.applyInst {}).reg rs).1.order.Perm (List.range ops.length) := by
+  obtain ⟨hw, hc, hsz, _⟩ := ordered_history ops
+  obtain ⟨k1, k2, k3, k4⟩ := runner_every_repetition a _ rs hw hm
+  have hstart : (runnerStart a (ops.foldl OReg.applyInst {}).reg).order.Perm (List.range ops.length) := by
+    have hc' : (ops.foldl OReg.applyInst {}).reg.order.Perm (List.range ops.length) := by
+      have := hc; unfold Reg.Complete at this; rwa [hsz] at this
+    unfold runnerStart
+    split
+    · rw [(wf_reverseTests (wf_initializeTestRun hw)).2]
+      exact (List.reverse_perm _).trans hc'
+    · exact hc'
+  refine ⟨k1, ?_, k3, k4.trans hstart⟩
+  intro ce hce
+  obtain ⟨r1, r2, r3⟩ := k2 ce hce
+  refine ⟨r1, r2, r3, ?_⟩
+  have hcnt := r1.1
+  rw [hcnt]
+  have hlen : (runnerStart a (ops.foldl OReg.applyInst {}).reg).keys.length = ops.length := by
+    simp only [Reg.keys, List.length_map]
+    rw [tests_length (wf_runnerStart hw), hstart.length_eq]
+    simp
+  simp only [countersOfKeys]
+  have hp : ∀ K : List Key, (K.filter (fun k => k.2.1 && k.2.2)).length + (K.filter (fun k => k.2.1 && !k.2.2)).length +
+      (K.filter (fun k => !k.2.1)).length = K.length := by
+    intro K
+    induction K with
+    | nil => rfl
+    | cons k K ih =>
+      obtain ⟨i, b1, b2⟩ := k
+      cases b1 <;> cases b2 <;> simp at ih ⊢ <;> omega
+  rw [hp, hlen]
+
 /-! ## non-vacuity: concrete, non-trivial instances -/
 
 -- byte strings over the letters a (97), b (98), A (65)
@@ -709,6 +1118,35 @@ example : (runsOf (runnerRunAllTests sampleArgs sampleReg [1, 2, 0, 1, 3, 0, 2, 
 example : (runnerRunAllTests sampleArgs sampleReg [1, 2, 0, 1, 3, 0, 2, 1, 0, 0, 1, 1]).1.order = [3, 0, 4, 2, 1] := by
   decide
 example : (runnerRunAllTests { sampleArgs with listMode := .names } sampleReg []).2.1.length = 1 := by decide
+-- TEST_ORDERED: plain tests 0 and 3, ordered tests 1 (level 5), 2 (level 1), 4 (level 5), 5 (level -2)
+def sampleInst : List InstOp :=
+  [.test (b [97]) (b [97]) false, .ordered 5 (b [98]) (b [97]), .ordered 1 (b [98]) (b [98]), .test (b [97]) (b [98]) true,
+   .ordered 5 (b [65]) (b [97]), .ordered (-2) (b [65]) (b [98])]
+example : (sampleInst.foldl OReg.applyInst {}).reg.order = [3, 0, 5, 2, 1, 4] := by decide
+example : (sampleInst.foldl OReg.applyInst {}).chain = [5, 2, 1, 4] := by decide     -- levels -2, 1, 5, 5 (tie: 1 before 4)
+example : plainOf sampleInst 0 = [0, 3] ∧ orderedOf sampleInst 0 = [(1, 5), (2, 1), (4, 5), (5, -2)] := by decide
+example : (sampleInst.foldl OReg.applyInst {}).reg.run.1 =
+    { testCount := 6, runCount := 5, ignoredCount := 1, filteredOutCount := 0 } := by decide
+example : executed (sampleInst.foldl OReg.applyInst {}).reg.run.2 = [0, 5, 2, 1, 4] := by decide
+-- an ordered test registered first of all goes to the END of the list once plain tests follow
+example : ([InstOp.ordered 0 [] [], .test [] [] false].foldl OReg.applyInst {}).reg.order = [1, 0] := by decide
+-- the runner on a registry with ordered tests: -r2 -b, every repetition runs all six registrations
+example : (runsOf (runnerRunAllTests { sampleArgs with groupFilters := [], nameFilters := [], shuffleSeed := none, repeatCount := 2 }
+    (sampleInst.foldl OReg.applyInst {}).reg []).2.1).map (fun ce => (executed ce.2, ce.1.runCount, ce.1.ignoredCount)) =
+    [([4, 1, 2, 5, 0], 5, 1), ([4, 1, 2, 5, 0], 5, 1)] := by decide
+-- OUTSIDE the quantifier (model evaluation): an installer that runs AFTER a reordering follows the stale
+-- `_nextOrderedTest` links and drops plain test 0 from the list — installers run during static initialisation
+example : ((({} : OReg).addTest [] [] false).install 1 [] [] [] 0).reg.order = [0, 1] ∧
+    (let o := (({} : OReg).addTest [] [] false).install 1 [] [] [] 0
+     ({ o with reg := o.reg.reverseTests }.install 2 [] [] [] 0).reg.order) = [1, 2] := by decide
+-- the regenerated pointer-array methods on concrete objects
+example : ((Gen.PointerArray.shuffle { arr := #[10, 11, 12, 13], count := 4, next := fun _ => none, rands := [6, 4, 3] } 7).state?.map
+    (fun s => (s.arr, s.rands, s.srands, walk s.next 9 (some 10)))) = some (#[10, 13, 11, 12], [], [7], [10, 13, 11, 12]) := by decide
+example : ((Gen.PointerArray.reverse { arr := #[10, 11, 12], count := 3, next := fun _ => none }).state?.map
+    (fun s => (s.arr, walk s.next 9 (some 12)))) = some (#[12, 11, 10], [12, 11, 10]) := by decide
+example : (sampleReg.shuffleTestsGen 5 [6, 4, 3, 2]).map (fun g => (g.reg.order, g.srands, g.rest)) =
+    some ([0, 2, 1, 4, 3], [5], []) := by decide
+example : sampleReg.reverseTestsGen.map (fun g => g.reg.order) = some [0, 1, 2, 3, 4] := by decide
 -- the relink hypothesis is needed: with a duplicated shell the links form a cycle (the C++ loop
 -- over the list would never reach NULL)
 example : walk (relink #[0, 1, 0] (fun _ => none)) 7 (firstOf #[0, 1, 0]) = [0, 1, 0, 1, 0, 1, 0] := by
